@@ -135,6 +135,10 @@ macro_rules! impl_from_slice_conversions {
             {
                 #[inline]
                 fn from_boxed_sample_slice(mut slice: Box<[S]>) -> Option<Self> {
+                    // A slice that cannot be converted must be dropped, not forgotten.
+                    if slice.len() % $N != 0 {
+                        return None;
+                    }
                     // First, we need a raw pointer to the slice and to make sure that the `Box` is
                     // forgotten so that our slice does not get deallocated.
                     let len = slice.len();
